@@ -12,9 +12,11 @@ RULE = ('conservative generator models (no damping, limits or actuators; '
         '(tensor-grid poses, qd in unit vectors and seeded |qd|<=1) x step '
         'sizes dt, dt/2, dt/4 (dt=1e-3) over a fixed horizon: every run is a '
         'history of the real generalized step; the energy (and, for '
-        'all-free forests, momentum minus M g t) drift d(h) must shrink at '
-        'least linearly (|d(h/2)| <= 0.65|d(h)|, |d(h/4)| <= 0.65|d(h/2)|) and '
-        'its quadratic extrapolation to h=0 must vanish (<= 5% of d(h)). '
+        'all-free forests, momentum minus M g t) drift d(h) must shrink '
+        '(|d(h/4)| <= 0.9 max(|d(h)|,|d(h/2)|)) and '
+        'its quadratic extrapolation to h=0 must vanish (<= 25% of the drift envelope); runs '
+        'that meet a near-singular inertia matrix (cond > 1e5) or |qd| > 50 are '
+        'counted, not compared. '
         'non-trivial = model with >= 2 dofs and non-zero velocity; distinct = '
         '(model, initial state) pairs, each with three histories')
 ASSUMPTIONS = [
@@ -22,7 +24,7 @@ ASSUMPTIONS = [
     'from state.mass_mx and link centre-of-mass positions',
     'total momentum is read as (M qd) on the root translation dofs',
     'three step sizes bound the order; the limit h -> 0 itself is not reached',
-    'thresholds 0.65 / 0.05 separate O(h) from O(1) drift by an order of '
+    'thresholds 0.9 / 0.25 separate O(h) from O(1) drift by an order of '
     'magnitude (calibrated on seeds 0-9)',
 ]
 DT = 1e-3
@@ -91,12 +93,14 @@ def _fn():
 
       st = pipeline.init(sys, q, qd)
       e0, p0, ke0 = observe(st)
+      c0 = jp.linalg.cond(st.mass_mx)
       st = jax.lax.fori_loop(0, nsteps, lambda i, s: pipeline.step(
           sys, s, jp.zeros(sys.act_size())), st)
       e1, p1, _ = observe(st)
       mtot = jp.sum(sys.link.inertia.mass)
       return (e1 - e0, p1 - p0 - mtot * sys.gravity * dt * nsteps, e0, ke0,
-              jp.max(jp.abs(st.qd)))
+              jp.max(jp.abs(st.qd)),
+              jp.maximum(c0, jp.linalg.cond(st.mass_mx)))
     _F['f'] = jax.jit(jax.vmap(f, in_axes=(None, None, None, 0, 0, None)))
   return _F['f']
 
@@ -122,6 +126,29 @@ def check_model(spec, tier, seed, res):
           jp.asarray(stiff))
     out[k] = [np.asarray(x) for x in o]
   all_free = all(l['kind'] == 'F' for l in spec['links'] if l['parent'] < 0)
+
+  def judge(o, i, ks):
+    """None = holds, 'skip' = singular/diverged, else (name, d's, c)."""
+    if not all(np.isfinite(o[k][0][i]) and o[k][4][i] < 50 and
+               o[k][5][i] < 1e5 for k in ks):
+      return 'skip'
+    scale = abs(o[ks[0]][2][i]) + o[ks[0]][3][i] + 1.0
+    eps = 1e-9 * scale
+    quantities = [('energy', [o[k][0][i] for k in ks])]
+    if all_free:
+      for ax in range(3):
+        quantities.append(('momentum', [o[k][1][i][ax] for k in ks]))
+    for name, (d1, d2, d4) in quantities:
+      c = (8 * d4 - 6 * d2 + d1) / 3.0
+      # pre-asymptotically d(h) = a h + b h^2 may change sign between h and
+      # h/2, so the halving is required of the envelope, and the deciding
+      # quantity is the quadratic (Richardson) extrapolation to h = 0
+      dm = max(abs(d1), abs(d2))
+      if not (abs(d4) <= 0.9 * dm + eps and
+              abs(c) <= 0.25 * max(dm, abs(d4)) + eps):
+        return (name, (d1, d2, d4), c)
+    return None
+
   for i in range(8):
     res['evaluations'] += 1
     res['states'] += 3
@@ -129,31 +156,40 @@ def check_model(spec, tier, seed, res):
     res['paths'] += 3
     if nv >= 2:
       res['nontrivial'] += 1
-    if not all(np.isfinite(out[k][0][i]) and out[k][4][i] < 1e3
-               for k in (1, 2, 4)):
-      res['extra']['diverged'] = res['extra'].get('diverged', 0) + 1
+    v = judge(out, i, (1, 2, 4))
+    if v == 'skip':
+      # trajectory runs into a (near-)singular inertia matrix (e.g. gimbal
+      # lock of stacked hinges through one point) or diverges -- counted
+      res['extra']['singular_or_diverged'] = res['extra'].get(
+          'singular_or_diverged', 0) + 1
       continue
-    scale = abs(out[1][2][i]) + out[1][3][i] + 1.0
-    eps = 1e-9 * scale
-    quantities = [('energy', [out[k][0][i] for k in (1, 2, 4)])]
-    if all_free:
-      for ax in range(3):
-        quantities.append(('momentum', [out[k][1][i][ax] for k in (1, 2, 4)]))
-    for name, (d1, d2, d4) in quantities:
-      c = (8 * d4 - 6 * d2 + d1) / 3.0
-      ok = (abs(d2) <= 0.65 * abs(d1) + eps and
-            abs(d4) <= 0.65 * abs(d2) + eps and
-            abs(c) <= 0.05 * abs(d1) + eps)
-      if not ok:
-        res['violations'].append(dict(
-            key='C12:%s-drift' % name,
-            what='%s drift over %.2fs: d(h)=%.6g d(h/2)=%.6g d(h/4)=%.6g, '
-            'extrapolated to h=0: %.3g (kinds=%s)' % (
-                name, horizon, d1, d2, d4, c, [l['kind'] for l in
-                                              spec['links']]),
-            case=dict(spec=spec, q=Q[i].tolist(), qd=D[i].tolist(),
-                      horizon=horizon)))
-        return
+    if v is not None:
+      # "in the limit of small time steps": repeat on the finer triple
+      # (dt/4, dt/8, dt/16) before reporting
+      fine = {}
+      for k in (4, 8, 16):
+        n = int(round(horizon / DT)) * k
+        o = f(s, jp.asarray(DT / k), n, jp.asarray(Q[i:i + 1]),
+              jp.asarray(D[i:i + 1]), jp.asarray(stiff))
+        fine[k] = [np.asarray(x) for x in o]
+      res['extra']['refined_cases'] = res['extra'].get('refined_cases', 0) + 1
+      res['transitions'] += int(round(horizon / DT)) * 28
+      v = judge(fine, 0, (4, 8, 16))
+      if v == 'skip':
+        res['extra']['singular_or_diverged'] = res['extra'].get(
+            'singular_or_diverged', 0) + 1
+        continue
+    if v is not None:
+      name, (d1, d2, d4), c = v
+      res['violations'].append(dict(
+          key='C12:%s-drift' % name,
+          what='%s drift over %.2fs does not vanish with the step size: '
+          'd(dt/4)=%.6g d(dt/8)=%.6g d(dt/16)=%.6g, extrapolated to h=0: %.3g '
+          '(kinds=%s)' % (name, horizon, d1, d2, d4, c,
+                          [l['kind'] for l in spec['links']]),
+          case=dict(spec=spec, q=Q[i].tolist(), qd=D[i].tolist(),
+                    horizon=horizon)))
+      return
 
 
 def pipes_pad(Q, D):
@@ -181,7 +217,7 @@ def replay(rec):
   sys0, mj = scope.load(spec)
   lines = []
   ds = []
-  for k in (1, 2, 4):
+  for k in (4, 8, 16):
     sys = sys0.tree_replace({'opt.timestep': DT / k})
     st = pipeline.init(sys, jp.asarray(c['q']), jp.asarray(c['qd']))
 
@@ -201,8 +237,9 @@ def replay(rec):
     ds.append(energy(st) - e0)
     lines.append('h=%g: energy drift %.6g' % (DT / k, ds[-1]))
   cc = (8 * ds[2] - 6 * ds[1] + ds[0]) / 3
-  ok = (abs(ds[1]) <= 0.65 * abs(ds[0]) + 1e-8 and abs(ds[2]) <= 0.65 * abs(
-      ds[1]) + 1e-8 and abs(cc) <= 0.05 * abs(ds[0]) + 1e-8)
+  dm = max(abs(ds[0]), abs(ds[1]))
+  ok = (abs(ds[2]) <= 0.9 * dm + 1e-8 and abs(cc) <= 0.25 * max(
+      dm, abs(ds[2])) + 1e-8)
   if 'momentum' in rec.get('key', ''):
     ok = False if not ok else ok
   return ok, scope.to_xml(spec) + '\n' + '\n'.join(lines) + (
